@@ -96,6 +96,56 @@ theorem scan_unset_translated (spec : MsgSpec) (bm : Bitmap) (n i : Nat) (src : 
     scan spec bm (n + 1) i src off acc = scan spec bm n (i + 1) src off acc := by
   simp [scan, hp, hs]
 
+
+/-! ### the two loops of `Message.pack` = `MsgSpec.setBits`, `MsgSpec.packFields` -/
+
+open MsgSpec in
+/-- first loop: an id below 2 or at a continuation position is stepped over (source: `continue`) -/
+theorem setBits_skip_translated (id : Nat) (rest : List Nat) (bm : Bitmap) (s f : Bool)
+    (h : (message_pack_skips id (bm.isPresenceBit id) s f).getD 0 false = true) :
+    setBits (id :: rest) bm = setBits rest bm := by
+  simp only [message_pack_skips, List.getD_cons_zero, Bool.or_eq_true, decide_eq_true_eq] at h
+  have : (decide (id < 2) || bm.isPresenceBit id) = true := by
+    rcases h with h | h
+    · have : id < 2 := by omega
+      simp [this]
+    · simp [h]
+  simp [setBits, this]
+
+open MsgSpec in
+/-- first loop: an id the bitmap can not represent (not set after `Set`) is the error of the
+source's first condition -/
+theorem setBits_guard_translated (id : Nat) (rest : List Nat) (bm : Bitmap) (f : Bool)
+    (h : (message_pack_guards id (bm.isPresenceBit id) ((bm.set id).isSet id) f).getD 0 false = true) :
+    setBits (id :: rest) bm = .err := by
+  simp only [message_pack_guards, List.getD_cons_zero, Bool.and_eq_true, Bool.not_eq_true', Bool.or_eq_false_iff,
+    decide_eq_false_iff_not] at h
+  obtain ⟨⟨h1, h2⟩, h3⟩ := h
+  have : ¬ id < 2 := by omega
+  simp [setBits, this, h2, h3]
+
+open MsgSpec in
+/-- second loop: data elements at continuation positions are not packed (source: `continue`);
+the bitmap field itself (id 1) is packed before the loop in the model -/
+theorem packFields_skip_translated (spec : MsgSpec) (bm : Bitmap) (i : Nat) (v : Value) (rest : List (Nat × Value))
+    (s f : Bool) (h : (message_pack_skips i (bm.isPresenceBit i) s f).getD 1 false = true) :
+    packFields spec bm ((i, v) :: rest) = packFields spec bm rest := by
+  simp only [message_pack_skips, List.getD_cons_succ, List.getD_cons_zero, Bool.and_eq_true, decide_eq_true_eq] at h
+  simp [packFields, h.2]
+
+open MsgSpec in
+/-- second loop: a populated id without a field definition is the error of the source's second
+condition -/
+theorem packFields_guard_translated (spec : MsgSpec) (bm : Bitmap) (i : Nat) (v : Value) (rest : List (Nat × Value))
+    (s : Bool) (hi : i ≠ 1)
+    (h : (message_pack_guards i (bm.isPresenceBit i) s (lookupId i spec.fields).isSome).getD 1 false = true) :
+    packFields spec bm ((i, v) :: rest) = .err := by
+  simp only [message_pack_guards, List.getD_cons_succ, List.getD_cons_zero, Bool.and_eq_true, Bool.not_eq_true',
+    Bool.and_eq_false_imp, decide_eq_true_eq, Option.isSome_eq_false_iff, Option.isNone_iff_eq_none] at h
+  obtain ⟨h1, h2⟩ := h
+  have hp : bm.isPresenceBit i = false := h1 (by omega)
+  simp [packFields, hp, h2]
+
 /-! non-vacuity -/
 example : bitmap_IsBitmapPresenceBit_value false 65 8 = true ∧ bitmap_IsBitmapPresenceBit_value false 64 8 = false ∧
     bitmap_IsBitmapPresenceBit_value true 65 8 = false ∧ bitmap_IsBitmapPresenceBit_value false 1 8 = true := by decide
